@@ -634,3 +634,41 @@ func parseDecLit(sv string) (*big.Int, bool) {
 	}
 	return v, true
 }
+
+func init() {
+	// error constructors (also reachable through the deprecated package-level variables of cosmos-sdk/types/errors)
+	newErr := func(x *Exec, s *State, r *Value, a []*Value, c *ast.CallExpr) []*Value {
+		e := Fresh("err.new", SInt)
+		s.Assume(Neq(e, Zero))
+		return []*Value{prim(e, tErr)}
+	}
+	wrap := func(x *Exec, s *State, r *Value, a []*Value, c *ast.CallExpr) []*Value {
+		e := Fresh("err.wrap", SInt)
+		s.Assume(Neq(e, Zero))
+		if len(a) > 0 && a[0].K == KPrim && a[0].T.S == SInt {
+			return []*Value{prim(Ite(Eq(a[0].T, Zero), Zero, e), tErr)}
+		}
+		return []*Value{prim(e, tErr)}
+	}
+	for _, p := range []string{"github.com/cosmos/cosmos-sdk/types/errors.", "cosmossdk.io/errors."} {
+		builtins[p+"Wrap"] = wrap
+		builtins[p+"Wrapf"] = wrap
+		builtins[p+"WithType"] = wrap
+		builtins[p+"New"] = newErr
+		builtins[p+"Register"] = newErr
+	}
+	builtins["errors.New"] = newErr
+	builtins["fmt.Errorf"] = newErr
+	builtins["github.com/pkg/errors.New"] = newErr
+	builtins["github.com/pkg/errors.Errorf"] = newErr
+	builtins["github.com/pkg/errors.Wrap"] = wrap
+	builtins["github.com/pkg/errors.Wrapf"] = wrap
+	builtins["(*cosmossdk.io/errors.Error).Wrap"] = newErr
+	builtins["(*cosmossdk.io/errors.Error).Wrapf"] = newErr
+	builtins["errors.Is"] = func(x *Exec, s *State, r *Value, a []*Value, c *ast.CallExpr) []*Value {
+		if a[0].K == KPrim && a[1].K == KPrim {
+			return []*Value{prim(Or(Eq(a[0].T, a[1].T), And(Neq(a[0].T, Zero), Fresh("errors.is", SBool))), tBool)}
+		}
+		return []*Value{prim(Fresh("errors.is", SBool), tBool)}
+	}
+}
